@@ -19,6 +19,7 @@ import (
 	_ "verif/mc/checks"
 	"verif/mc/core"
 	"verif/mc/drv"
+	"verif/mc/instr"
 	"verif/mc/store"
 )
 
@@ -49,6 +50,17 @@ func main() {
 			usage()
 		}
 		os.Exit(core.RunCheck(os.Args[2], tier))
+	case "instr":
+		// kvqlmc instr <repo> <outdir>: generate the C19 overlay
+		if len(os.Args) < 4 {
+			usage()
+		}
+		res, err := instr.Generate(os.Args[2], os.Args[3])
+		if err != nil {
+			fmt.Fprintln(os.Stderr, "instr:", err)
+			os.Exit(2)
+		}
+		fmt.Printf("instrumented %d statements (%d write sites) over %d package-level variables: %v\n", res.Sites, res.Writes, len(res.Vars), res.Vars)
 	case "run":
 		adhoc(os.Args[2:])
 	case "worker":
